@@ -935,7 +935,7 @@ def c15(tier, seed):
                      "Err, never Ok, never a panic; every well-formed base is accepted (converse). Oracle, rustc tier: a crate holding a seeded "
                      "sample of the ill-formed programs (>= 2 per operator) and every case the front end accepts (unknown relation attribute): "
                      ">= 1 error diagnostic inside each program's line range, none of them 'proc macro panicked'; a second crate holds the "
-                     "open compile-time findings about well-formed programs (KF-2, KF-4, KF-9, KF-20) and two controls that must compile. "
+                     "open compile-time findings about well-formed programs (KF-2, KF-4, KF-9), the program of the repaired KF-20 and two controls that must compile. "
                      "distinct_nontrivial = distinct (operator, site class, macro kind) triples whose site is not in the first rule."),
                samples=samples, distribution=dist, rejection_stage=stages, rustc_tier_modules=len(mods),
                wellformed_compile_findings=status)
